@@ -1,6 +1,6 @@
 SPECIFICATION Spec
 CONSTANTS
-  Dev = {"MintAmountPlusFee","ThresholdFloor","EmptyBatch","TokenPrefixScan","HashOmitsFields","NegativeFeeUnchecked","FeeRecordUnitMix"}
+  Dev = {"RefundTruncatedDust"}
 CONSTRAINT Record
 POSTCONDITION Report
 CHECK_DEADLOCK FALSE
